@@ -20,6 +20,12 @@ func (ir *IntrospectionResolver) ResolveIntrospectionFields(selectionSet ast.Sel
 		switch f.Name {
 		case "__type":
 			name := f.Arguments.ForName("name").Value.Raw
+			// the name can be passed in a variable
+			if v, err := f.Arguments.ForName("name").Value.Value(ir.Variables); err == nil {
+				if vs, ok := v.(string); ok {
+					name = vs
+				}
+			}
 			introspectionResult[f.Alias] = ir.resolveType(schema, &ast.Type{NamedType: name}, f.SelectionSet)
 			isIntrospection = true
 		case "__schema":
